@@ -26,6 +26,7 @@ import (
 	"strings"
 	"sync"
 	"sync/atomic"
+	"time"
 
 	"github.com/TarsCloud/TarsGo/tars/protocol"
 	"github.com/TarsCloud/TarsGo/tars/transport"
@@ -104,6 +105,7 @@ func supervise(o *common.Opts) {
 	}
 	defer os.RemoveAll(dir)
 	if err := writeCases(dir, cases); err != nil {
+		os.RemoveAll(dir)
 		res.Fatal(o.Out, err)
 	}
 	exit, stderr := runChild(o, dir, o.Out, o.Replay != "")
@@ -165,6 +167,7 @@ func supervise(o *common.Opts) {
 		res.Count(strconv.Itoa(i), "completed-before-crash", false)
 	}
 	if len(culprits) == 0 {
+		os.RemoveAll(dir)
 		res.Fatal(o.Out, fmt.Errorf("child process died (exit %d) and no case in flight reproduces it alone: %s", exit, tail(stderr, 1500)))
 	}
 	sort.Slice(culprits, func(i, j int) bool { return culprits[i].idx < culprits[j].idx })
@@ -270,6 +273,14 @@ var gOut string
 
 func childMain(o *common.Opts, dir string) {
 	gOut = o.Out
+	go func(parent int) { // do not outlive the supervisor (vcheck kills only that on a timeout)
+		for {
+			time.Sleep(500 * time.Millisecond)
+			if os.Getppid() != parent {
+				os.Exit(4)
+			}
+		}
+	}(os.Getppid())
 	verbose := os.Getenv("C07_VERBOSE") != ""
 	res := common.NewResult("C07", o)
 	res.Streams = []string{"frame"}
@@ -428,7 +439,7 @@ func childMain(o *common.Opts, dir string) {
 					lnPool <- ln
 				}
 				ran[i] = true
-				if outs[i].Stalled != "" || outs[i].Runaway {
+				if outs[i].Stalled != "" || outs[i].Runaway || outs[i].CloseTimeout {
 					atomic.AddInt32(&stalls, 1)
 				}
 			}(i, c)
@@ -490,7 +501,7 @@ func childMain(o *common.Opts, dir string) {
 		}
 	}
 	if skipped > 0 {
-		res.Note("%d cases skipped after %d stalled runs", skipped, stalls)
+		res.Note("%d cases skipped after %d runs that hit a time-out (hang, or a connection that was not closed)", skipped, stalls)
 	}
 	if err := res.Write(o.Out); err != nil {
 		panic(err)
